@@ -209,7 +209,7 @@ impl Property for C16S {
                     }
                 }
                 8 => Block::SetCcr(rng.u8() & 0x7f), // C (and the other flags) varies for the bit stores
-                6 => Block::Arith(rng.u8()),
+                6 => if rng.chance(1, 2) { Block::Arith(rng.u8()) } else { Block::Filler(rng.u32()) },
                 _ => Block::Delay(rng.range(1, 6) as u16),
             });
         }
